@@ -11,6 +11,24 @@ LIFE_CREATE = {"call.create", "call.threads_create", "ret.threads_create", "hook
 LIFE_EVENTS = LIFE_CREATE | {"shutdown.cb", "shutdown.set", "sys.join0", "wait.joined", "destroy.free", "ret.destroy",
                              "ret.shutdown_wait", "sys.close", "Crash", "Hang", "call.attach_first", "ret.attach_first"}
 
+# every named deviation action of the specification belongs to one property; a check reports only its own
+# (the trace of any thread-pool check passes through all layers of the specification)
+DEVIATION_PROPERTY = {
+    "done-callback-on-non-origin-thread-after-failed-post": "C10",
+    "tp_shutdown_wait-joins-a-thread-id-the-exiting-thread-already-cleared": "C11",
+    "tp_destroy-frees-the-pool-with-threads-never-joined": "C11",
+    "pool-freed-while-an-unjoined-thread-was-still-inside-tp_thread_proc": "C11",
+    "concurrent-tp_shutdown-runs-pvt-stop-hook-twice": "C11",
+    "stop-hook-without-start-hook-on-failed-create": "C11",
+    "tp_threads_create-reports-success-although-pthread_create-failed": "C11",
+    "shutdown-message-lost-on-a-full-queue-thread-never-stops": "C11",
+}
+def deviations(prop, tlc_out):
+    names = set(re.findall(r'"DEVIATION",\s*"([^"]+)"', tlc_out))
+    unknown = [n for n in names if n not in DEVIATION_PROPERTY]
+    if unknown: raise common.Infra("deviation without an owning property: %s" % unknown)
+    return sorted(n for n in names if DEVIATION_PROPERTY[n] == prop)
+
 def build(d, san=None, compiler=None, opt="-O1"):
     compiler = compiler or ("clang" if san else "gcc")
     return common.cc(["/verif/harness/tp_drv.c"], os.path.join(d, "tp_drv" + ("_" + san if san else "")),
